@@ -83,7 +83,10 @@ func zzSeed(block *Block) vconfig.VRFValue { return zzSeedVal }
 
 // N in 1..NMAX, C = floor((N-1)/3), position table of N..N+min(E,N) symbolic entries over the ids 1..N
 func zzChain() *vconfig.ChainConfig {
-	n := 1 + zzsym.Choose("N", zzsym.Param("NMAX"))
+	n := zzsym.Param("NFIX") // > 0: one network size only (used for N = 7, C = 2: the smallest size with C >= 2)
+	if n == 0 {
+		n = 1 + zzsym.Choose("N", zzsym.Param("NMAX"))
+	}
 	c := (n - 1) / 3
 	e := zzsym.Param("E") // table of N..N+min(E,N) entries
 	if e > n {
